@@ -105,4 +105,89 @@ MUTANTS = [
     dict(name='c04-ctor-seq-one', expect=[('C04', 'R04.6')],
          note='first message uses nonce base^1 on both sides; interop only',
          edits=[(AEAD, "seq: <Seq as Default>::default(),", "seq: Seq(1),")]),
+    # ------------------------------------------------------------------ C05
+    dict(name='c05-f1-returns', expect=[('C05', 'R05.4')],
+         note='the repaired defect F1 re-introduced: needs an exhausted receiver and a ciphertext shorter than a tag',
+         edits=[(AEAD, """        // An exhausted context refuses every call, including ones with a malformed ciphertext
+        if self.0.overflowed {
+            return Err(HpkeError::MessageLimitReached);
+        }
+
+""", "")]),
+    dict(name='c05-increment-before-tagcheck', expect=[('C05', 'R05.1')],
+         note='a forged message desynchronises the receiver (DoS); needs a failing open followed by a valid one',
+         edits=[(AEAD, """            if decrypt_res.is_err() {
+                // Opening failed due to a bad tag
+                return Err(HpkeError::OpenError);
+            }
+
+            // Opening was a success. Try to increment the sequence counter. If it fails, this was
+            // our last decryption.
+            match increment_seq(&self.0.seq) {
+                Some(new_seq) => self.0.seq = new_seq,
+                None => self.0.overflowed = true,
+            }
+""", """            match increment_seq(&self.0.seq) {
+                Some(new_seq) => self.0.seq = new_seq,
+                None => self.0.overflowed = true,
+            }
+            if decrypt_res.is_err() {
+                // Opening failed due to a bad tag
+                return Err(HpkeError::OpenError);
+            }
+""")]),
+    dict(name='c05-advance-on-failure-too', expect=[('C05', 'R05.1')],
+         note='needs a failing open followed by a valid one',
+         edits=[(AEAD, """                // Opening failed due to a bad tag
+                return Err(HpkeError::OpenError);""", """                // Opening failed due to a bad tag
+                if let Some(s) = increment_seq(&self.0.seq) { self.0.seq = s; }
+                return Err(HpkeError::OpenError);""")]),
+    dict(name='c05-no-advance-on-success', expect=[('C05', 'R05.2')],
+         note='receiver accepts message 0 forever (replay); second message fails',
+         edits=[(AEAD, OPEN_MATCH, """            // our last decryption.
+""")]),
+    dict(name='c05-verdict-ignored', expect=[('C05', 'R05.3')],
+         note='every forged ciphertext is accepted',
+         edits=[(AEAD, """            if decrypt_res.is_err() {
+                // Opening failed due to a bad tag
+                return Err(HpkeError::OpenError);
+            }
+""", """            let _ = decrypt_res;
+""")]),
+    dict(name='c05-unchecked-sub', expect=[('C05', 'R05.5')],
+         note='panics (debug) or wraps (release) on ciphertexts shorter than a tag',
+         edits=[(AEAD, """        let msg_len = ciphertext
+            .len()
+            .checked_sub(tag_len)
+            .ok_or(HpkeError::OpenError)?;""", """        let msg_len = ciphertext.len() - tag_len;""")]),
+    dict(name='c05-short-input-wrong-error', expect=[('C05', 'R05.5')],
+         note='short ciphertext yields ValidationError instead of OpenError',
+         edits=[(AEAD, """            .checked_sub(tag_len)
+            .ok_or(HpkeError::OpenError)?;""", """            .checked_sub(tag_len)
+            .ok_or(HpkeError::ValidationError)?;""")]),
+    dict(name='c05-open-remaps-error', expect=[('C05', 'R05.6')],
+         note='allocating open reports OpenError for an exhausted context reached through the in-place path',
+         edits=[(AEAD, "self.open_in_place_detached(&mut buf, aad, &tag)?;",
+                 "self.open_in_place_detached(&mut buf, aad, &tag).map_err(|_| HpkeError::OpenError)?;")]),
+    dict(name='c05-reset-seq-on-refusal', expect=[('C05', 'R05.1')],
+         note='needs 2^64 opens then one refused call',
+         edits=[(AEAD, """            // If the sequence counter overflowed, we've been used for too long. Shut down.
+            Err(HpkeError::MessageLimitReached)""", """            // If the sequence counter overflowed, we've been used for too long. Shut down.
+            self.0.seq = Seq(0);
+            Err(HpkeError::MessageLimitReached)""")]),
+    dict(name='c05-inplace-no-overflow-check', expect=[('C05', 'R05.4')],
+         note='exhausted receiver keeps opening under nonce 2^64-1',
+         edits=[(AEAD, """        if self.0.overflowed {
+            // If the sequence counter overflowed, we've been used for too long. Shut down.
+            Err(HpkeError::MessageLimitReached)
+        } else {
+            // Compute the nonce and do the encryption in place
+            let nonce = mix_nonce::<A>(&self.0.base_nonce, &self.0.seq);
+            let decrypt_res = self""", """        if false {
+            // If the sequence counter overflowed, we've been used for too long. Shut down.
+            Err(HpkeError::MessageLimitReached)
+        } else {
+            // Compute the nonce and do the encryption in place
+            let nonce = mix_nonce::<A>(&self.0.base_nonce, &self.0.seq);
+            let decrypt_res = self""")]),
 ]
